@@ -195,6 +195,57 @@ Proof.
   - repeat constructor; intros b x b' x' c H Hl; simpl in H; inversion H; subst; exact Hl.
 Qed.
 
+(* ---- entry points built around SHARED member collator objects ---- *)
+(* For every history of constructions and calls on one set of member objects (any entry point kinds, any
+   configurations, any batches, in any order): every call is answered exactly as a FRESH configuration would --
+   the entry point as its own constructor arguments (dataset_mode, return_ctx, member list) describe it, over the
+   members as they were before the history began -- and the member objects are what they were. *)
+Theorem entry_point_independent_of_other_entry_points :
+  forall ops h eps, run_hist h eps ops = (h, calls_fresh h eps ops).
+Proof. exact run_hist_fresh. Qed.
+Print Assumptions entry_point_independent_of_other_entry_points.
+
+Theorem building_and_calling_leave_member_configuration :
+  forall ops h eps, fst (run_hist h eps ops) = h.
+Proof. exact run_hist_heap. Qed.
+Print Assumptions building_and_calling_leave_member_configuration.
+
+(* a compose / wrapper entry point's behaviour is a function of ITS OWN configuration and member list *)
+Theorem entry_point_function_of_own_configuration : forall h e b,
+  ep_kind e <> EKSingle ->
+  ep_call h e b = match ep_kind e, ep_ids e with
+                  | EKCompose, _ :: _ | EKWrapper, [_] => run_cfg (ep_cfg e) (map (impl_at h) (ep_ids e)) b
+                  | _, _ => fail_out
+                  end.
+Proof. exact ep_call_own_cfg. Qed.
+Print Assumptions entry_point_function_of_own_configuration.
+
+(* what was built / called before (ops1) only determines WHICH entry points exist, not how they answer *)
+Theorem calls_after_any_prefix : forall ops1 h eps ops2,
+  calls_fresh h eps (ops1 ++ ops2) =
+  calls_fresh h eps ops1 ++
+  calls_fresh h (eps ++ flat_map (fun o => match o with HBuild k c ids => [ep_of k c ids] | _ => [] end) ops1) ops2.
+Proof. exact calls_fresh_app. Qed.
+Print Assumptions calls_after_any_prefix.
+
+(* contrast (NOT the code that exists): a wrapper that writes its configuration into the member and delegates to it.
+   One member, wrapped for a loader with contexts (entry 0) and then for one without (entry 1): entry 0 silently
+   follows the last-written configuration (no context returned), and the member's attributes have changed *)
+Definition ex_heap : heap := [{| mo_cfg := None; mo_impl := id_member MBefore |}].
+Definition ex_ops : list hop :=
+  [HBuild EKWrapper {| c_mode := 0; c_rc := true |} [0%nat]; HBuild EKWrapper {| c_mode := 0; c_rc := false |} [0%nat];
+   HCall 0 ex_raw].
+Example shared_member_history_on_the_code_that_exists :
+  run_hist ex_heap [] ex_ops =
+  (ex_heap, [(0%nat, ([DefaultCollate; UnpackCtx; Call 0],
+                      Ok (BColl [CVec DI64 [0; 1]; CMat DI64 [] [[[5]; [6]]; [[7]; [8]]]]) (Some [(1, [10; 11])])))]).
+Proof. vm_compute. reflexivity. Qed.
+Example config_written_into_member_breaks_the_earlier_entry_point :
+  map (fun o => match snd (snd o) with Ok _ (Some _) => true | _ => false end)
+      (snd (run_hist_gen true ex_heap [] ex_ops)) = [false] /\
+  map mo_cfg (fst (run_hist_gen true ex_heap [] ex_ops)) = [Some {| c_mode := 0; c_rc := false |}].
+Proof. vm_compute. split; reflexivity. Qed.
+
 (* FINDING (fixes/C18_ragged_ctx_keys.txt): samples whose contexts have DIFFERENT keys (e.g. behind
    KDRandomApply, whose skip path writes nothing) -- the merge follows the first sample: a key only
    later samples have is silently lost, a key a later sample lacks raises KeyError *)
